@@ -157,7 +157,19 @@ func buildResponse(req *http.Request, rp *Reply, n, k int) (*http.Response, stri
 		body = tokenFor(n, k) + rp.Body
 		switch {
 		case rp.Chunked:
-			fmt.Fprintf(&buf, "Transfer-Encoding: chunked\r\n\r\n%x\r\n%s\r\n0\r\n\r\n", len(body), body)
+			buf.WriteString("Transfer-Encoding: chunked\r\n")
+			if len(rp.Trailer) > 0 {
+				names := make([]string, len(rp.Trailer))
+				for i, p := range rp.Trailer {
+					names[i] = p[0]
+				}
+				fmt.Fprintf(&buf, "Trailer: %s\r\n", strings.Join(names, ", "))
+			}
+			fmt.Fprintf(&buf, "\r\n%x\r\n%s\r\n0\r\n", len(body), body)
+			for _, p := range rp.Trailer {
+				fmt.Fprintf(&buf, "%s: %s\r\n", p[0], p[1])
+			}
+			buf.WriteString("\r\n")
 		case rp.NoCL:
 			fmt.Fprintf(&buf, "\r\n%s", body)
 		default:
@@ -598,6 +610,17 @@ func runHistory(t *testing.T, h *History) (lines []string) {
 					}
 				}
 				rs.emit("I\tREPLY\t%d\t%d\t%s\t%d\t%s\t%s\t%d\t%d", n, k, kind, rp.Status, encHdrList(fr), hx(bodyRepr(body)), rp.DelayNs, rp.BodyFail)
+				frame := "cl"
+				if rp.Chunked {
+					frame = "chunked"
+				} else if rp.NoCL {
+					frame = "close"
+				}
+				tr := Hdr{}
+				if rp.Chunked && body != "" {
+					tr = rp.Trailer
+				}
+				rs.emit("I\tFRAME\t%d\t%d\t%s\t%s", n, k, frame, encHdrList(tr))
 				rs.noteDates(hdrToHTTP(rp.Hdr))
 				for _, hn := range []string{"Location", "Content-Location"} {
 					for _, p := range rp.Hdr {
@@ -727,6 +750,7 @@ func runHistory(t *testing.T, h *History) (lines []string) {
 					resp.Body.Close()
 				}
 				rs.emit("O\tRES\t%d\t%d\t%d\tresp\t%d\t%s\t%s\t%s", n, t0, t1, resp.StatusCode, hdrs, hx(bodyRepr(string(body))), be)
+				rs.emit("O\tTRAILER\t%d\t%s", n, encHeader(resp.Trailer))
 			}
 			if after := snap(req); after != before {
 				rs.emit("O\tREQCMP\t%d\tchanged", n)
